@@ -102,6 +102,7 @@ def check(prop, tier, seed):
     # the whole library end to end over TCP: the byte stream each side really wrote, under bursts and transport back-pressure
     import stack_checks
     rejects += stack_checks.check(run, quick, seed)
+    rejects += stack_checks.shared_check(run, quick)
     viol, kn = classify(prop, [r for r in rejects if r[0] == prop])
     run.add_known(kn)
     seen = set()
